@@ -57,12 +57,12 @@ def WY (p : Row F → Bool) (l : List (Row F)) : F := sumIf p (fun r => r.w * r.
 /-- weighted mean of the observed outcomes in the (stratum, arm) cell -/
 def cellMean (l : List (Row F)) (s : Nat) (a : Bool) : F := WY (inCell s a) l / W (inCell s a) l
 
-/-- weight of the target population falling in stratum `s` -/
-def Ntgt (t : Tgt) (l : List (Row F)) (s : Nat) : F := W (fun r => inStratum s r && t.mem r) l
+/-- weight of the target population (rows satisfying `tm`) falling in stratum `s` -/
+def Ntgt (tm : Row F → Bool) (l : List (Row F)) (s : Nat) : F := W (fun r => inStratum s r && tm r) l
 
 /-- **the closed form**: cell means of arm `a` standardized to the stratum distribution of the target -/
-def std (l : List (Row F)) (S : List Nat) (t : Tgt) (a : Bool) : F :=
-  sumBy (fun s => Ntgt t l s * cellMean l s a) S / sumBy (fun s => Ntgt t l s) S
+def std (l : List (Row F)) (S : List Nat) (tm : Row F → Bool) (a : Bool) : F :=
+  sumBy (fun s => Ntgt tm l s * cellMean l s a) S / sumBy (fun s => Ntgt tm l s) S
 
 /-- Hájek (ratio) mean of the observed outcomes of arm `a` under row weights `ω` (times the
     frequency weight): what a weighted saturated marginal structural model `Y ~ A` returns
@@ -72,8 +72,8 @@ def hajek (l : List (Row F)) (ω : Row F → F) (a : Bool) : F :=
   sumIf (fun r => r.a == a && r.obs) (fun r => ω r * r.w) l
 
 /-- g-formula: weighted mean over the target rows of the prediction under "set treatment to `a`" -/
-def gformula (l : List (Row F)) (Q : Row F → Bool → F) (t : Tgt) (a : Bool) : F :=
-  sumIf (fun r => t.mem r) (fun r => r.w * Q r a) l / W (fun r => t.mem r) l
+def gformula (l : List (Row F)) (Q : Row F → Bool → F) (tm : Row F → Bool) (a : Bool) : F :=
+  sumIf tm (fun r => r.w * Q r a) l / W tm l
 
 /-- weighted mean over all rows of a per-row quantity -/
 def wmean (l : List (Row F)) (f : Row F → F) : F :=
